@@ -1047,3 +1047,136 @@ Proof.
     - exact IHl. }
   rewrite E. simpl. destruct (mem v (gadj g u)); simpl; reflexivity.
 Qed.
+
+(* ---- percolate_network ---- *)
+Definition eeqb (e e' : node * node) : bool := N.eqb (fst e) (fst e') && N.eqb (snd e) (snd e').
+Definition meme (e : node * node) (l : list (node * node)) : bool := existsb (eeqb e) l.
+
+Lemma eeqb_spec : forall e e', reflect (e = e') (eeqb e e').
+Proof.
+  intros [a b] [c d]. unfold eeqb. cbn [fst snd].
+  destruct (N.eqb_spec a c), (N.eqb_spec b d); constructor; congruence.
+Qed.
+
+Lemma meme_In : forall e l, meme e l = true <-> In e l.
+Proof.
+  intros e l. unfold meme. rewrite existsb_exists. split.
+  - intros [x [Hx E]]. destruct (eeqb_spec e x); [subst; exact Hx|discriminate].
+  - intro H. exists e. split; [exact H|]. destruct (eeqb_spec e e); [reflexivity|congruence].
+Qed.
+
+Lemma meme_app : forall e l l', meme e (l ++ l') = meme e l || meme e l'.
+Proof. intros. unfold meme. apply existsb_app. Qed.
+
+Lemma forallb_ext_in' : forall (A : Type) (f h : A -> bool) l,
+  (forall x, In x l -> f x = h x) -> forallb f l = forallb h l.
+Proof.
+  intros A f h l H. induction l as [|x l IH]; [reflexivity|].
+  simpl. rewrite (H x (or_introl eq_refl)), IH; [reflexivity|]. intros y Hy. apply H. right. exact Hy.
+Qed.
+
+Section Perc.
+Variable p : Q.
+Variable sel : node * node -> bool.        (* the candidate set of kept edges *)
+Let q := clamp01 p.
+
+Definition kept_is (D : list (node * node)) (r : list (node * node) * list qentry) : bool :=
+  forallb (fun e => Bool.eqb (meme e (fst r)) (sel e)) D.
+
+Lemma perc_general : forall es D kept ql,
+  NoDup (D ++ es) -> (forall e, In e kept -> In e D) ->
+  prob (kept_is (D ++ es)) (law (perc_loop (simple_rules p) es kept ql)) ==
+  (if forallb (fun e => Bool.eqb (meme e kept) (sel e)) D then 1 else 0) *
+  prodQ (map (fun e => if sel e then q else 1 - q) es).
+Proof.
+  induction es as [|[u v] es IH]; intros D kept ql Hnd Hsub.
+  - cbn [perc_loop law]. unfold prob. simpl. rewrite app_nil_r. unfold kept_is. cbn [fst].
+    destruct (forallb (fun e => Bool.eqb (meme e kept) (sel e)) D); ring.
+  - cbn [perc_loop simple_rules r_test bind]. rewrite prob_flip. fold q.
+    assert (EA : D ++ (u, v) :: es = (D ++ [(u, v)]) ++ es) by (rewrite <- app_assoc; reflexivity).
+    rewrite EA. rewrite EA in Hnd.
+    assert (HeD : ~ In (u, v) D).
+    { intro H. rewrite <- EA in Hnd. apply NoDup_remove_2 in Hnd. apply Hnd. apply in_or_app. left. exact H. }
+    assert (Hk : meme (u, v) kept = false).
+    { destruct (meme (u, v) kept) eqn:E; [|reflexivity]. apply meme_In in E. apply Hsub in E. contradiction. }
+    rewrite IH; [|exact Hnd|].
+    2:{ intros e He. apply in_app_or in He. apply in_or_app. destruct He as [He|He]; [left; apply Hsub; exact He|right; exact He]. }
+    rewrite IH; [|exact Hnd|].
+    2:{ intros e He. apply in_or_app. left. apply Hsub. exact He. }
+    rewrite !forallb_app. cbn [forallb]. rewrite !andb_true_r.
+    assert (E1 : forallb (fun e => Bool.eqb (meme e (kept ++ [(u, v)])) (sel e)) D =
+                 forallb (fun e => Bool.eqb (meme e kept) (sel e)) D).
+    { apply forallb_ext_in'. intros e He. rewrite meme_app. cbn [meme existsb]. rewrite orb_false_r.
+      destruct (eeqb_spec e (u, v)) as [E|E]; [subst e; contradiction|]. rewrite orb_false_r. reflexivity. }
+    rewrite E1. rewrite meme_app, Hk. cbn [meme existsb orb].
+    destruct (eeqb_spec (u, v) (u, v)) as [_|N]; [|congruence]. cbn [orb].
+    cbn [map prodQ fold_right]. fold (prodQ (map (fun e => if sel e then q else 1 - q) es)).
+    destruct (forallb (fun e => Bool.eqb (meme e kept) (sel e)) D), (sel (u, v)); cbn [Bool.eqb andb]; ring.
+Qed.
+
+(* every edge of G is kept independently with probability p: the probability that the kept
+   edges are exactly those selected by [sel] is the product of p resp. 1-p over the edges *)
+Theorem perc_law : forall g, NoDup (gedges g) ->
+  prob (kept_is (gedges g)) (law (perc_loop (simple_rules p) (gedges g) [] [])) ==
+  prodQ (map (fun e => if sel e then q else 1 - q) (gedges g)).
+Proof.
+  intros g Hnd. rewrite (perc_general (gedges g) [] [] [] Hnd) by (intros e []).
+  cbn [forallb]. ring.
+Qed.
+
+End Perc.
+
+(* the percolated graph has the node set of G and exactly the kept edges, undirected *)
+Lemma perc_nodes : forall g kept, gnodes (perc_graph g kept) = gnodes g.
+Proof. reflexivity. Qed.
+
+Lemma add_nb_In : forall l x y, In y (add_nb l x) <-> In y l \/ y = x.
+Proof.
+  intros l x y. unfold add_nb. destruct (mem x l) eqn:E.
+  - split; [tauto|]. intros [H|H]; [exact H|subst y; apply dmem_In; exact E].
+  - rewrite in_app_iff. simpl. intuition.
+Qed.
+
+Lemma perc_adj_In : forall kept x y,
+  In y (perc_adj kept x) <-> In (x, y) kept \/ In (y, x) kept.
+Proof.
+  intros kept x y. unfold perc_adj.
+  assert (G : forall l, In y (fold_left (fun l e => if N.eqb (fst e) x then add_nb l (snd e)
+                 else if N.eqb (snd e) x then add_nb l (fst e) else l) kept l) <->
+              In y l \/ In (x, y) kept \/ In (y, x) kept).
+  { induction kept as [|[a b] kept IH]; intro l.
+    - simpl. tauto.
+    - cbn [fold_left fst snd]. rewrite IH. cbn [In].
+      destruct (N.eqb_spec a x) as [Ea|Ea].
+      + subst a. rewrite add_nb_In. split.
+        * intros [[H|H]|[H|H]]; [tauto|subst y; tauto|tauto|tauto].
+        * intros [H|[[H|H]|[H|H]]]; try tauto.
+          -- injection H as H. subst b. tauto.
+          -- injection H as H1 H2. subst b. subst y. left. right. reflexivity.
+      + destruct (N.eqb_spec b x) as [Eb|Eb].
+        * subst b. rewrite add_nb_In. split.
+          -- intros [[H|H]|[H|H]]; [tauto|subst y; tauto|tauto|tauto].
+          -- intros [H|[[H|H]|[H|H]]]; try tauto.
+             ++ injection H as H1 H2. congruence.
+             ++ injection H as H1. subst a. tauto.
+        * split.
+          -- intros [H|[H|H]]; tauto.
+          -- intros [H|[[H|H]|[H|H]]]; try tauto.
+             ++ injection H as H1 H2. congruence.
+             ++ injection H as H1 H2. congruence. }
+  rewrite G. simpl. tauto.
+Qed.
+
+Lemma percolate_unfold : forall g p,
+  percolate_network g p =
+  bind (perc_loop (simple_rules p) (gedges g) [] []) (fun kq => Ret (perc_graph g (fst kq), snd kq)).
+Proof. reflexivity. Qed.
+
+Fixpoint nodupb_pairs (l : list (node * node)) : bool :=
+  match l with [] => true | x :: t => negb (meme x t) && nodupb_pairs t end.
+Lemma nodupb_NoDup_pairs : forall l, nodupb_pairs l = true -> NoDup l.
+Proof.
+  induction l as [|x l IH]; intro H; [constructor|].
+  cbn [nodupb_pairs] in H. apply andb_true_iff in H. destruct H as [H1 H2].
+  constructor; [|apply IH; exact H2]. intro Hin. apply meme_In in Hin. rewrite Hin in H1. discriminate.
+Qed.
